@@ -10,7 +10,7 @@ for p in sorted(glob.glob(os.path.join(VERIF, 'seeded', '*', 'meta.json'))):
     m = json.load(open(p))
     d = m.get('detection', {})
     rows.append((os.path.basename(os.path.dirname(p)), m.get('property', '?'), m.get('summary', ''), m.get('needs', ''),
-                 ', '.join(f"{k}: {v}" for k, v in sorted(d.items())) or 'not run'))
+                 (', '.join(f"{k}: {v}" for k, v in sorted(d.items())) or 'not run') + (' — ' + m['history'] if m.get('history') else '')))
 with open(os.path.join(VERIF, 'seeded', 'README.md'), 'w') as fh:
     fh.write('# Seeded changes and which check catches them\n\n'
              'Each directory holds a change to craigahobbs/bare-script-py written by a fresh sub-agent that saw only the property text\n'
